@@ -2,9 +2,10 @@ package main
 
 import (
 	"encoding/json"
-	"go/types"
 	"flag"
 	"fmt"
+	"go/types"
+	"math/rand"
 	"os"
 	"path/filepath"
 	"sort"
@@ -20,10 +21,10 @@ import (
 const modulePath = "github.com/theory/sqljson"
 
 type world struct {
-	prog *ssa.Program
-	pkgs []*packages.Package
-	db   *ContractDB
-	sent *sentinels
+	prog  *ssa.Program
+	pkgs  []*packages.Package
+	db    *ContractDB
+	sent  *sentinels
 	loadS float64
 }
 
@@ -252,8 +253,17 @@ func runCheck(o checkOpts) int {
 		if o.funcs != "" && !strings.Contains(c.Key, o.funcs) {
 			continue
 		}
+		// the frame obligations (nothing outside modifies is written, no
+		// package variable changes) carry C05, C09 and C19 for every
+		// function under contract, also those whose contract names other
+		// properties only; such functions contribute just their frame
+		// obligations
+		frameOnly := false
 		if prop != "all" && !contractMentions(c, prop) {
-			continue
+			if !framePropSet[prop] || c.Trusted != "" {
+				continue
+			}
+			frameOnly = true
 		}
 		res := verifyFunction(w.prog, w.db, c.Fn, c, modulePath, w.sent)
 		results = append(results, res)
@@ -271,6 +281,12 @@ func runCheck(o checkOpts) int {
 		}
 		funcsUnder = append(funcsUnder, res.Name)
 		for _, ob := range res.Obligations {
+			if frameOnly {
+				if ob.Kind == "frame" && contains(ob.Props, prop) {
+					selected = append(selected, ob)
+				}
+				continue
+			}
 			if prop == "all" || contains(ob.Props, prop) || (supportKinds[ob.Kind] && !ob.Explicit) {
 				selected = append(selected, ob)
 			}
@@ -287,7 +303,12 @@ func runCheck(o checkOpts) int {
 	}
 	genS := time.Since(genStart).Seconds()
 	if len(engineErrors) > 0 {
+		seenErr := map[string]bool{}
 		for _, e := range engineErrors {
+			if seenErr[e] {
+				continue
+			}
+			seenErr[e] = true
 			fmt.Println("ENGINE-ERROR:", e)
 		}
 		fmt.Printf("UNDECIDED property=%s reason=engine or contract error (see above)\n", prop)
@@ -441,6 +462,8 @@ func runCheck(o checkOpts) int {
 	return exit
 }
 
+var framePropSet = map[string]bool{"C05": true, "C09": true, "C19": true}
+
 func contractMentions(c *Contract, prop string) bool {
 	if contains(c.Props, prop) || contains(c.SafetyProps, prop) {
 		return true
@@ -523,24 +546,24 @@ func writeEvidence(prop string, o checkOpts, results []*funcResult, selected []*
 	proofDischarged := discharged - coversOK
 	level := "proof"
 	cov := map[string]any{
-		"obligations":              proofObls,
-		"discharged":               proofDischarged,
-		"checker_cmd":              fmt.Sprintf("bin/govc check -p %s -tier %s   (solvers %v, %ds per obligation; z3 = 4.8.12, z3-new = 5.1.0, cvc5 = 1.0.x)", prop, o.tier, rc.solvers, rc.timeoutS),
-		"trusted_base":             trustedBase(assump, trusted),
-		"functions_under_contract": funcs,
-		"obligations_by_kind":      byKind,
-		"by_backend":               byBackend,
-		"solver_time_s":            round2(solverTime),
-		"phase_s":                  map[string]float64{"load_and_ssa": round2(loadS), "vc_generation": round2(genS), "solving_wall": round2(solveS)},
-		"slowest":                  slow,
-		"vacuity":                  map[string]any{"covers": covers, "covers_sat": coversOK, "covers_undecided": coverUndecided},
-		"known_findings":           knownHit,
-		"inlined_callees":          keysOf(inl),
-		"uncontracted_callees":     keysOf(hav),
+		"obligations":               proofObls,
+		"discharged":                proofDischarged,
+		"checker_cmd":               fmt.Sprintf("bin/govc check -p %s -tier %s   (solvers %v, %ds per obligation; z3 = 4.8.12, z3-new = 5.1.0, cvc5 = 1.0.x)", prop, o.tier, rc.solvers, rc.timeoutS),
+		"trusted_base":              trustedBase(assump, trusted),
+		"functions_under_contract":  funcs,
+		"obligations_by_kind":       byKind,
+		"by_backend":                byBackend,
+		"solver_time_s":             round2(solverTime),
+		"phase_s":                   map[string]float64{"load_and_ssa": round2(loadS), "vc_generation": round2(genS), "solving_wall": round2(solveS)},
+		"slowest":                   slow,
+		"vacuity":                   map[string]any{"covers": covers, "covers_sat": coversOK, "covers_undecided": coverUndecided},
+		"known_findings":            knownHit,
+		"inlined_callees":           keysOf(inl),
+		"uncontracted_callees":      keysOf(hav),
 		"abstracted_or_unsupported": keysOf(unsup),
-		"samples":                  samples,
-		"integers":                 "mathematical Int with explicit wrap per machine operation (functions marked 'mode bv' use 64/32-bit vectors and IEEE floating point)",
-		"extraction_drops":         "bodies of functions outside the module (assumed contracts), text of error messages, DebugRefs, object iteration order, heap addresses; panics become unreachability obligations; termination only where a decreases clause exists",
+		"samples":                   samples,
+		"integers":                  "mathematical Int with explicit wrap per machine operation (functions marked 'mode bv' use 64/32-bit vectors and IEEE floating point)",
+		"extraction_drops":          "bodies of functions outside the module (assumed contracts), text of error messages, DebugRefs, object iteration order, heap addresses; panics become unreachability obligations; termination only where a decreases clause exists",
 	}
 	if len(knownHit) > 0 || nfailed > 0 {
 		level = "other"
@@ -622,7 +645,7 @@ func (w *world) allTargets() []*Contract {
 			continue
 		}
 		var fns []*ssa.Function
-		for _, m := range sp.Members {
+		for _, m := range sortedMembers(sp) {
 			switch m := m.(type) {
 			case *ssa.Function:
 				fns = append(fns, m)
@@ -659,4 +682,38 @@ func (w *world) allTargets() []*Contract {
 	}
 	sort.Slice(extra, func(i, j int) bool { return extra[i].Key < extra[j].Key })
 	return append(out, extra...)
+}
+
+// sortedPkgs and sortedMembers give map-backed SSA collections a fixed order,
+// so that the generated conditions are identical from run to run.
+func sortedPkgs(prog *ssa.Program) []*ssa.Package {
+	ps := prog.AllPackages()
+	sort.Slice(ps, func(i, j int) bool { return ps[i].Pkg.Path() < ps[j].Pkg.Path() })
+	debugShuffle(len(ps), func(i, j int) { ps[i], ps[j] = ps[j], ps[i] })
+	return ps
+}
+
+func sortedMembers(pkg *ssa.Package) []ssa.Member {
+	names := make([]string, 0, len(pkg.Members))
+	for n := range pkg.Members {
+		names = append(names, n)
+	}
+	sort.Strings(names)
+	debugShuffle(len(names), func(i, j int) { names[i], names[j] = names[j], names[i] })
+	out := make([]ssa.Member, len(names))
+	for i, n := range names {
+		out[i] = pkg.Members[n]
+	}
+	return out
+}
+
+// debugShuffle permutes an ordered collection when GOVC_SHUFFLE=<seed> is set:
+// a self-test that no verdict depends on the iteration order.
+func debugShuffle(n int, swap func(i, j int)) {
+	seed := os.Getenv("GOVC_SHUFFLE")
+	if seed == "" {
+		return
+	}
+	v, _ := strconv.ParseInt(seed, 10, 64)
+	rand.New(rand.NewSource(v)).Shuffle(n, swap)
 }
